@@ -1229,7 +1229,9 @@ def trace(ctx, scope: Scope, expr, sel: tuple = (), max_depth: int = 60, stop=No
             cn = call_name(e)
             recv = e.func.value if isinstance(e.func, ast.Attribute) else None
             two = len(s) >= 2 and s[0][0] == "elem" and s[1][0] == "idx"
-            if cn in VALUE_WRAPPERS and recv is None and e.args:
+            if cn in ("list", "dict", "set", "tuple") and recv is None and not e.args and not e.keywords:
+                pass                        # an empty container: nothing in it yet
+            elif cn in VALUE_WRAPPERS and recv is None and e.args:
                 go(sc, e.args[0], s, depth + 1)
             elif cn in CONTAINER_WRAPPERS and e.args and not (recv is not None and isinstance(recv, ast.Name) and recv.id == f.self_name):
                 go(sc, e.args[0], s, depth + 1)
@@ -1330,3 +1332,26 @@ def _chain(sc: Scope):
     while sc is not None:
         yield sc
         sc = sc.parent
+
+
+def selection_of_param(ctx, f, name_node: ast.Name) -> Optional[str]:
+    """The parameter p if `name_node` is p itself, or a local (possibly re-binding p) whose elements are all elements of p:
+    `[p[j] for j in keep]`, `p[keep]`, `np.asarray(p)[keep]`, the result of a helper that returns such a selection.  None otherwise."""
+    if is_param(ctx, f, name_node):
+        return name_node.id
+    ps = element_params(ctx, f, name_node)
+    return next(iter(ps)) if ps is not None and len(ps) == 1 else None
+
+
+def element_params(ctx, f, expr) -> Optional[Set[str]]:
+    """Names of the parameters of `f` whose elements (at any depth) the elements of the sequence `expr` are - through
+    selections, flattening loops/comprehensions, array wrappers and helper returns; index expressions do not count (they
+    choose, they do not provide values).  None if some element has another or an untraceable origin."""
+    t = trace(ctx, Scope(f), expr, (("elem",),))
+    ps = set()
+    for l in t.values():
+        if l.kind == "param" and isinstance(l.node, ast.Name) and l.scope.parent is None:
+            ps.add(l.node.id)
+        else:
+            return None
+    return ps
